@@ -9,7 +9,9 @@ hypotheses about sympy are what the oracle measures: the value on the stack afte
 running the literal alone against fractions.Fraction(literal)."""
 from __future__ import annotations
 
+import contextlib
 import fractions
+import io
 import itertools
 import os
 import re
@@ -43,7 +45,8 @@ def push_values(src):
     from vyxal.transpile import transpile
     stack = []
     text = transpile(src, True)
-    exec(text, dict(_globals(), stack=stack, ctx=Context()))  # noqa: S102
+    with contextlib.redirect_stdout(io.StringIO()):
+        exec(text, dict(_globals(), stack=stack, ctx=Context()))  # noqa: S102
     return text, stack
 
 
